@@ -148,7 +148,7 @@ def pair_case(k, origin, cname, defines, std):
     return R.Case(name, [k, kc], judge)
 
 
-EXTRA_MODULES = ('c11', 'c05', 'c06', 'c18', 'c19', 'c13', 'c04', 'c09', 'c08')
+EXTRA_MODULES = ('c11', 'c05', 'c06', 'c18', 'c19', 'c13', 'c04', 'c09', 'c08', 'c17')
 EXTRA_CONFIGS_QUICK = ('CXX98@gccview', 'CXX98', 'CTOR_INIT')
 
 
@@ -165,6 +165,8 @@ def extra_corpus(tier):
             for k in c.kernels:
                 if set(k.cfg.defines) - {'GLM_ENABLE_EXPERIMENTAL'} or k.cfg.flags or k.pre or getattr(k.cfg, 'peel', 0) or k.cfg.noinline or k.name in seen:
                     continue
+                if prop == 'c17' and not k.name.startswith(('k_ctor_', 'k_mctor_', 'k_qctor_')):
+                    continue      # constructors only: the swizzle forms are configuration-specific by construction (C17 analyses each form under its own macro)
                 if re.search(r'glm::mat<[34], [34], \w+, glm::\w+>\(\*q\)', k.source()):
                     continue      # mat3(q) / mat4(q) use qua's explicit conversion operators, which only exist with GLM_HAS_EXPLICIT_CONVERSION_OPERATORS (C++11): not part of the pre-C++11 API
                 seen.add(k.name)
